@@ -327,6 +327,11 @@ class Check:
   def finish(self):
     cov = self.cov
     cov["distinct_nontrivial"] = len(self._distinct)
+    cov.setdefault("rule", "cases are behaviours / case records exported by TLC from the property's TLA+ module "
+                   "(exhaustive within the stated constants, or `-simulate` seeded by VERIF_SEED) and traces "
+                   "recorded from real runs; a case counts as distinct and non-trivial when its key "
+                   "(configuration, input history / geometry, seed) has not been seen before in this run and "
+                   "the real code was actually executed on it")
     cov["binding_selftests"] = self.selftests
     cov["known_findings_hit"] = sorted(self.known_hits)
     ev = {
@@ -341,8 +346,12 @@ class Check:
     }
     if not cov["samples"]:
       raise MachineryError("no samples recorded")
-    (ROOT / "evidence").mkdir(exist_ok=True)
-    (ROOT / "evidence" / f"{self.pid}.json").write_text(json.dumps(ev, indent=1, default=str))
+    if REPO.resolve() == Path("/repo"):
+      evdir = ROOT / "evidence"
+    else:                      # a scratch copy under test (mutant / seeded change): keep real evidence intact
+      evdir = ROOT / ".work" / "evidence_scratch"
+    evdir.mkdir(parents=True, exist_ok=True)
+    (evdir / f"{self.pid}.json").write_text(json.dumps(ev, indent=1, default=str))
     for k, what in sorted(self.known_hits.items()):
       print(f"KNOWN-FINDING: property={self.pid} {k}: {what}")
     for key, what, path in self.violations:
